@@ -757,7 +757,7 @@ pub fn check_c05(tier: &str) -> i32 {
         "C05",
         tier,
         "model_checking",
-        "byte streams = all concatenations of <= N items from a 13-item (server role) / 11-item (client role) library of valid and invalid MBAP frames; each stream is delivered to a fresh production session under every chunking in the bound (baseline, every uniform chunk size, all placements of <= K cuts, all 2^(n-1) partitions of short streams); output, handler calls, request result and session end are compared with a stream-level reference framer + reference server / reply decoder; a sentinel transaction proves no byte was lost or re-read. states = distinct reference outcomes of streams",
+        "byte streams = all concatenations of <= N items from a 13-item (server role) / 11-item (client role) library of valid and invalid MBAP frames; each stream is delivered to a fresh production session under every chunking in the bound (baseline, every uniform chunk size, all placements of <= K cuts, all 2^(n-1) partitions of short streams); output, handler calls, request result and session end are compared with a stream-level reference framer + reference server / reply decoder; a sentinel transaction proves no byte was lost or re-read; plus every one of the 65,536 values of the length field and of the protocol id in both roles. states = distinct reference outcomes of streams",
     );
     let thorough = rep.thorough();
     let max_items = if thorough { 3 } else { 2 };
@@ -811,6 +811,42 @@ pub fn check_c05(tier: &str) -> i32 {
         client_stream_job("C05", false, &req, &cstreams[i].0, &cstreams[i].1, bound, st);
     });
     rep.phase("client role", st, json!({"streams": cstreams.len()}));
+    // every value of the header fields: all 65,536 length fields and all protocol ids, both roles.
+    // The frame carries as many body bytes as a correct reader takes for that length (length - 1,
+    // at most 253) followed by a valid sentinel frame, so a reader that misjudges the length either
+    // loses the sentinel or answers garbage
+    let minimal = ChunkBound { uniform: false, max_cuts: 0, full_cuts_up_to: 0, all_partitions_up_to: 0 };
+    let st = parallel(256, |hi, st| {
+        for lo in 0..256usize {
+            let v = ((hi << 8) | lo) as u16;
+            let body_len = if (1..=254).contains(&v) { v as usize - 1 } else { 5 };
+            let mut body = read_pdu(3, 0, 2);
+            body.resize(body_len.max(0), 0);
+            if body_len >= 5 {
+                // still a read request when long enough (longer bodies are malformed PDUs, answered with an exception)
+                body[..5].copy_from_slice(&read_pdu(3, 0, 2));
+            }
+            let sentinel = mbap_frame(0x7E7E, 1, &read_pdu(4, 1, 1));
+            // (a) length field = v
+            let mut stream = mbap_raw(0x0101, 0, v, 1, &body);
+            stream.extend_from_slice(&sentinel);
+            server_stream_job("C05", &cfg, &format!("length-field-{v:#06x}+sentinel"), &stream, minimal, st);
+            // (b) protocol id = v
+            let mut stream = mbap_raw(0x0101, v, 6, 1, &read_pdu(3, 0, 2));
+            stream.extend_from_slice(&sentinel);
+            server_stream_job("C05", &cfg, &format!("protocol-id-{v:#06x}+sentinel"), &stream, minimal, st);
+            // client role: the reply to the outstanding request with that length field / protocol id
+            let (good, _) = good_reply(&req);
+            let mut rbody = good.clone();
+            let rlen = if (1..=254).contains(&v) { v as usize - 1 } else { good.len() };
+            rbody.resize(rlen, 0);
+            let stream = mbap_raw(0, 0, v, 1, &rbody);
+            client_stream_job("C05", false, &req, &format!("reply-length-field-{v:#06x}"), &stream, minimal, st);
+            let stream = mbap_raw(0, v, (good.len() + 1) as u16, 1, &good);
+            client_stream_job("C05", false, &req, &format!("reply-protocol-id-{v:#06x}"), &stream, minimal, st);
+        }
+    });
+    rep.phase("all values of the length field and of the protocol id, both roles", st, json!({"values": 65536}));
     // connection boundary: the byte stream the property quantifies over is per connection. A
     // reply (or an unsolicited frame) cut off at every position by a reset / EOF, then a fresh
     // connection on which an honest exchange must work
